@@ -299,4 +299,4 @@ mod bench {
 
 #[cfg(kani)]
 #[path = "/verif/harness/may_queue/mpsc_list.rs"]
-mod verif_kani;
+pub(crate) mod verif_kani;
